@@ -191,3 +191,155 @@ Definition mon_C10_step (step : nat) (o : val) (prev cur : obs) : list val :=
 Definition mon_C10 (c impl : val) : val :=
   VL (mon_fold (fun step o prev cur (_ : unit) => (mon_C10_step step o prev cur, tt))
                0 (vL (vnth 2 c)) (vL impl) empty_obs tt).
+
+(* ---------- shared: token list and block time tracked along the history ---------- *)
+Record track := mkTrack {
+  tr_tokens : list token_info;
+  tr_time : Z;
+  tr_timeout : Z;
+  tr_pending : list (bytes * event);            (* claims voted since the last EndBlocker *)
+  tr_taken : list (bytes * N * Z * bytes)       (* (chain, id, hub amount taken at send time, denom) *)
+}.
+
+Definition track_step (o : val) (prev cur : obs) (t : track) : track :=
+  let kind := op_kind o in
+  if kind =? 7 then mkTrack (map dec_token (vL (vnth 1 o))) (tr_time t) (tr_timeout t) (tr_pending t) (tr_taken t)
+  else if kind =? 5 then mkTrack (tr_tokens t) (vI (vnth 2 o)) (tr_timeout t) (tr_pending t) (tr_taken t)
+  else if kind =? 4 then mkTrack (tr_tokens t) (tr_time t) (tr_timeout t) (tr_pending t ++ [(vB (vnth 1 o), dec_event (vnth 2 o))]) (tr_taken t)
+  else if kind =? 6 then mkTrack (tr_tokens t) (tr_time t) (tr_timeout t) [] (tr_taken t)
+  else if (kind =? 1) && (ob_code cur =? 0) then
+    (* the entry created by this send *)
+    let chain := vB (vnth 2 o) in
+    let news := filter (fun e => beqb (s_chain e) chain && negb (in_entries e (all_entries prev))) (ob_pool cur) in
+    match news with
+    | e :: _ => mkTrack (tr_tokens t) (tr_time t) (tr_timeout t) (tr_pending t)
+                        ((chain, s_id e, vI (vnth 5 o) + vI (vnth 6 o), vB (vnth 4 o)) :: tr_taken t)
+    | [] => t
+    end
+  else t.
+
+Definition token_dec (toks : list token_info) (chain ext : bytes) : option Z :=
+  match ext_to_token toks chain ext with Some ti => Some (ti_dec ti) | None => None end.
+
+Definition taken_of (t : track) (e : ste) : option (Z * bytes) :=
+  match find (fun x : bytes * N * Z * bytes => beqb (fst (fst (fst x))) (s_chain e) && N.eqb (snd (fst (fst x))) (s_id e)) (tr_taken t) with
+  | Some x => Some (snd (fst x), snd x) | None => None end.
+
+(* ---------- C12 ---------- *)
+Definition k_c12_unauth := str [67;49;50;47;117;110;97;117;116;104;111;114;105;115;101;100;45;99;97;110;99;101;108].      (* C12/unauthorised-cancel *)
+Definition k_c12_notremoved := str [67;49;50;47;110;111;116;45;114;101;109;111;118;101;100].                              (* C12/not-removed *)
+Definition k_c12_amount := str [67;49;50;47;114;101;102;117;110;100;45;97;109;111;117;110;116].                           (* C12/refund-amount *)
+Definition k_c12_dust := str [67;49;50;47;114;101;102;117;110;100;45;100;117;115;116;45;100;101;99;105;109;97;108;115;45;108;116;45;49;56]. (* C12/refund-dust-decimals-lt-18 *)
+Definition k_c12_dest := str [67;49;50;47;114;101;102;117;110;100;45;100;101;115;116;105;110;97;116;105;111;110].       (* C12/refund-destination *)
+Definition k_c12_early := str [67;49;50;47;101;97;114;108;121;45;111;114;45;115;116;114;97;121;45;114;101;109;111;118;97;108]. (* C12/early-or-stray-removal *)
+Definition k_c12_expired := str [67;49;50;47;101;120;112;105;114;101;100;45;110;111;116;45;114;101;102;117;110;100;101;100]. (* C12/expired-not-refunded *)
+
+Definition refund_check (step : nat) (t : track) (prev cur : obs) (e : ste) (single : bool) : list val :=
+  (* e was refunded between prev and cur; single: no other refund touched the same account in this step *)
+  match id_to_token (tr_tokens t) (s_tid e), token_dec (tr_tokens t) (s_chain e) (s_ext e) with
+  | Some ti, Some d =>
+      let total := to_hub d (s_token e + s_fee e + s_comm e) in
+      if beqb (s_refund_chain e) b_hub then
+        if single then
+          let delta := obs_bal cur (s_sender e) (ti_denom ti) - obs_bal prev (s_sender e) (ti_denom ti) in
+          (if delta =? total then [] else [viol k_c12_amount step [VB (s_chain e); vNat (s_id e); VI delta; VI total]])
+          ++ match taken_of t e with
+             | Some (taken, _) =>
+                 if delta =? taken then []
+                 else if (d <? 18) && (delta <? taken) && (taken - delta <? 3 * pow10 (18 - d)) then
+                   [viol k_c12_dust step [VB (s_chain e); vNat (s_id e); VI taken; VI delta]]
+                 else [viol k_c12_amount step [VB (s_chain e); vNat (s_id e); VI taken; VI delta]]
+             | None => []
+             end
+        else []
+      else if beqb (s_refund_chain e) [] then []
+      else if total =? 0 then []
+      else
+        (* a new transfer to the originating address on the originating chain *)
+        if existsb (fun x => beqb (s_chain x) (s_refund_chain e) && beqb (s_recipient x) (s_refund_addr e)
+                             && (s_fee x =? 0) && (s_comm x =? 0) && negb (in_entries x (all_entries prev)))
+                   (ob_pool cur)
+        then [] else [viol k_c12_dest step [VB (s_chain e); vNat (s_id e)]]
+  | _, _ => []
+  end.
+
+Definition mon_C12_step (step : nat) (o : val) (prev cur : obs) (t : track) : list val :=
+  let kind := op_kind o in
+  if kind =? 2 then
+    if ob_code cur =? 0 then
+      let sender := vB (vnth 1 o) in let chain := vB (vnth 2 o) in let id := vN (vnth 3 o) in
+      match find (fun e => N.eqb (s_id e) id && is_prefix chain (pool_key e)) (ob_pool prev) with
+      | None => [viol k_c12_unauth step [VB chain; vNat id]]
+      | Some e =>
+          (if beqb (s_sender e) sender then [] else [viol k_c12_unauth step [VB chain; vNat id; VB sender]])
+          ++ (if in_entries e (all_entries cur) then [viol k_c12_notremoved step [VB chain; vNat id]] else [])
+          ++ refund_check step t prev cur e true
+      end
+    else
+      (* a failed cancel changes nothing *)
+      if (Nat.eqb (length (ob_pool prev)) (length (ob_pool cur))) then [] else [viol k_c12_notremoved step []]
+  else if kind =? 6 then
+    let exp e := s_created e * 1000 + tr_timeout t <? tr_time t in
+    let gone := filter (fun e => negb (in_entries e (all_entries cur))) (ob_pool prev) in
+    (* unbatched entries leave in EndBlocker only by expiry *)
+    flat_map (fun e => if exp e then [] else [viol k_c12_early step [VB (s_chain e); vNat (s_id e)]]) gone
+    ++ flat_map (fun e => if exp e && in_entries e (ob_pool cur)
+                          then [viol k_c12_expired step [VB (s_chain e); vNat (s_id e)]] else []) (ob_pool prev)
+    ++ flat_map (fun e => refund_check step t prev cur e
+                                       (Nat.eqb (length (filter (fun x => beqb (s_sender x) (s_sender e)) gone)) 1
+                                        && Nat.eqb (length (tr_pending t)) 0)) gone
+  else
+    (* no other operation removes an unbatched entry except batching (then it is in a batch) *)
+    [].
+
+Definition mon_C12 (c impl : val) : val :=
+  let timeout := vI (vnth 5 (vnth 0 c)) in
+  VL (mon_fold (fun step o prev cur (t : track) =>
+                  let t1 := if (op_kind o =? 7) || (op_kind o =? 5) then track_step o prev cur t else t in
+                  let r := mon_C12_step step o prev cur t1 in
+                  (r, if (op_kind o =? 7) || (op_kind o =? 5) then t1 else track_step o prev cur t1))
+               0 (vL (vnth 2 c)) (vL impl) empty_obs (mkTrack [] 0 timeout [] [])).
+
+(* ---------- C13 ---------- *)
+Definition k_c13_alive := str [67;49;51;47;119;105;116;104;100;114;97;119;110;45;119;104;105;108;101;45;101;120;101;99;117;116;97;98;108;101]. (* C13/withdrawn-while-executable *)
+Definition k_c13_minter := str [67;49;51;47;109;105;110;116;101;114;45;98;97;116;99;104;45;119;105;116;104;100;114;97;119;110].               (* C13/minter-batch-withdrawn *)
+Definition k_c13_notremoved := str [67;49;51;47;101;120;101;99;117;116;101;100;45;110;111;116;45;114;101;109;111;118;101;100].               (* C13/executed-not-removed *)
+Definition k_c13_lost := str [67;49;51;47;116;114;97;110;115;102;101;114;115;45;110;111;116;45;114;101;116;117;114;110;101;100].             (* C13/transfers-not-returned *)
+
+Definition exec_targets (t : track) : list (bytes * bytes * N) :=
+  flat_map (fun ce : bytes * event => match snd ce with
+                                      | EvBatchExecuted _ coin bn _ _ _ _ => [(fst ce, coin, bn)]
+                                      | _ => [] end) (tr_pending t).
+
+Definition mon_C13_step (step : nat) (o : val) (prev cur : obs) (t : track) : list val :=
+  let kind := op_kind o in
+  let gone := filter (fun b => negb (existsb (batch_same b) (ob_batches cur))) (ob_batches prev) in
+  if kind =? 5 then
+    flat_map (fun b =>
+                if beqb (b_chain b) b_minter then [viol k_c13_minter step [vNat (b_nonce b)]]
+                else if N.ltb (b_timeout b) (ctr prev 5 (b_chain b)) then
+                  (* its transfers are back in the pool or batched again *)
+                  flat_map (fun e => if in_entries e (all_entries cur) then [] else [viol k_c13_lost step [VB (b_chain b); vNat (s_id e)]]) (b_txs b)
+                else [viol k_c13_alive step [VB (b_chain b); VB (b_ext b); vNat (b_nonce b); vNat (b_timeout b); vNat (ctr prev 5 (b_chain b))]])
+             gone
+  else if kind =? 6 then
+    let targets := exec_targets t in
+    let is_target b := existsb (fun x : bytes * bytes * N => beqb (fst (fst x)) (b_chain b) && beqb (snd (fst x)) (b_ext b) && N.eqb (snd x) (b_nonce b)) targets in
+    let older b := existsb (fun x : bytes * bytes * N => beqb (fst (fst x)) (b_chain b) && beqb (snd (fst x)) (b_ext b) && N.ltb (b_nonce b) (snd x)
+                                                          && existsb (fun b2 => beqb (b_chain b2) (b_chain b) && beqb (b_ext b2) (b_ext b) && N.eqb (b_nonce b2) (snd x)) (ob_batches prev)) targets in
+    flat_map (fun b =>
+                if is_target b then []
+                else if beqb (b_chain b) b_minter then [viol k_c13_minter step [vNat (b_nonce b)]]
+                else if older b then
+                  (* back in the pool (or, if already past the transfer timeout, refunded by the same EndBlocker) *)
+                  flat_map (fun e => if in_entries e (all_entries cur) || (s_created e * 1000 + tr_timeout t <? tr_time t) then []
+                                     else [viol k_c13_lost step [VB (b_chain b); vNat (s_id e)]]) (b_txs b)
+                else [viol k_c13_alive step [VB (b_chain b); VB (b_ext b); vNat (b_nonce b)]]) gone
+    ++ flat_map (fun b => if is_target b && existsb (batch_same b) (ob_batches cur)
+                          then [viol k_c13_notremoved step [VB (b_chain b); VB (b_ext b); vNat (b_nonce b)]] else []) (ob_batches prev)
+  else
+    flat_map (fun b => [viol k_c13_alive step [VB (b_chain b); VB (b_ext b); vNat (b_nonce b)]]) gone.
+
+Definition mon_C13 (c impl : val) : val :=
+  VL (mon_fold (fun step o prev cur (t : track) => (mon_C13_step step o prev cur t, track_step o prev cur t))
+               0 (vL (vnth 2 c)) (vL impl) empty_obs (mkTrack [] 0 (vI (vnth 5 (vnth 0 c))) [] [])).
